@@ -352,6 +352,248 @@ def c01_step(maxsize: int, idle: int, leased_n: int, dropped_mask: int, block: b
                fault, dfault, resp_kind, disp, k, method_post)
 
 
+
+# ---- proxied and TLS pools (E1-enum) -------------------------------------------------------------------------------------------
+# The same invariant for https pools and pools behind a proxy: direct https, forwarding http proxy, CONNECT tunnel through an
+# http proxy, CONNECT tunnel through an https proxy (TLS-in-TLS), with a fault at one step of ONE attempt.
+
+from kit import tls as TLS
+from kit.h import decode_point
+from urllib3 import ProxyManager
+from urllib3.connectionpool import HTTPSConnectionPool
+from urllib3.exceptions import SSLError as _SSLError, ProxyError as _ProxyError, MaxRetryError as _MaxRetryError
+
+PTOPOS = ["https direct", "forwarding http proxy", "tunnel via http proxy", "tunnel via https proxy"]
+PSTEPS = ["none", "connect", "proxy_tls", "connect_reply", "origin_tls", "send", "read_status", "mid_body"]
+PKINDS = ["timeout", "reset", "eof", "garbage", "interrupt", "sslerror", "403"]
+
+
+class PPeer(N.BaseHandler):
+    def __init__(self, topo, step, kind):
+        self.topo, self.step, self.kind = topo, step, kind
+        self.state = {}
+        self.fired = False
+        self.raised = None
+
+    def _exc(self):
+        self.fired = True
+        k = self.kind
+        e = {"timeout": socket.timeout("timed out"), "reset": ConnectionResetError(errno.ECONNRESET, "reset"),
+             "interrupt": Interrupt("interrupt"), "sslerror": ssl.SSLError(1, "[SSL] bad record mac")}.get(k)
+        self.raised = e
+        return e
+
+    def on_connect(self, net, sock):
+        if self.step == "connect" and not self.fired and self.kind in ("timeout", "reset", "interrupt"):
+            raise self._exc()
+
+    def _st(self, sock):
+        return self.state.setdefault(sock.id, {"got": b"", "pos": 0, "queue": [], "eof": False})
+
+    def on_send(self, sock, data):
+        st = self._st(sock)
+        st["got"] += data
+        while True:
+            buf = st["got"][st["pos"]:]
+            end = buf.find(b"\r\n\r\n")
+            if end < 0:
+                break
+            head = buf[:end]
+            st["pos"] += end + 4
+            if head.startswith(b"CONNECT ") and not getattr(sock, "tunnel_established", False):
+                if self.step == "connect_reply" and not self.fired:
+                    k = self.kind
+                    if k in ("timeout", "reset", "interrupt", "sslerror"):
+                        st["queue"].append(self._exc())
+                    elif k == "eof":
+                        self.fired = True
+                        st["queue"].append(b"")
+                    elif k == "garbage":
+                        self.fired = True
+                        st["queue"].extend([b"\x00\x01 nonsense\r\n\r\n", b""])
+                    else:
+                        self.fired = True
+                        st["queue"].extend([b"HTTP/1.0 403 Forbidden\r\nContent-Length: 0\r\n\r\n", b""])
+                    continue
+                sock.tunnel_established = True
+                sock.tunnel_target = None
+                st["queue"].append(b"HTTP/1.0 200 OK\r\n\r\n")
+                continue
+            if self.step == "send" and not self.fired and self.kind in ("timeout", "reset", "interrupt", "sslerror"):
+                raise self._exc()
+            if self.step == "read_status" and not self.fired:
+                k = self.kind
+                if k in ("timeout", "reset", "interrupt", "sslerror"):
+                    st["queue"].append(self._exc())
+                elif k == "eof":
+                    self.fired = True
+                    st["queue"].append(b"")
+                else:
+                    self.fired = True
+                    st["queue"].extend([b"\x00\x01 nonsense\r\n\r\n", b""])
+                continue
+            if self.step == "mid_body" and not self.fired:
+                st["queue"].append(b"HTTP/1.1 200 OK\r\nContent-Length: 10\r\n\r\n0123")
+                k = self.kind
+                if k in ("timeout", "reset", "interrupt", "sslerror"):
+                    st["queue"].append(self._exc())
+                else:
+                    self.fired = True
+                    st["queue"].append(b"")
+                continue
+            st["queue"].append(b"HTTP/1.1 200 OK\r\nContent-Length: 10\r\n\r\n0123456789")
+
+    def on_read(self, sock):
+        st = self._st(sock)
+        if st["eof"]:
+            return b""
+        if st["queue"]:
+            x = st["queue"].pop(0)
+            if isinstance(x, BaseException):
+                st["eof"] = True
+                raise x
+            if x == b"":
+                st["eof"] = True
+            return x
+        return b""
+
+    def readable(self, sock):
+        st = self.state.get(sock.id)
+        return bool(st and (st["queue"] or st["eof"]))
+
+
+class _FaultyScript(TLS.Script):
+    """TLS handshake faults: the proxy leg / the origin leg fails with the scripted exception."""
+
+    def __init__(self, peer):
+        TLS.Script.__init__(self, {}, TLS.Cert("default", (("DNS", "*"),)))
+        self.peer = peer
+
+    def cert_for(self, sock, server_hostname, tls_in_tls):
+        p = self.peer
+        base = sock
+        while isinstance(base, TLS.TlsSock):
+            base = base._inner
+        tunnelled = getattr(base, "tunnel_established", False)
+        leg = "origin_tls" if (tunnelled or p.topo == 0) else "proxy_tls"
+        if p.step == leg and not p.fired and p.kind in ("timeout", "reset", "interrupt", "sslerror"):
+            raise p._exc()
+        if p.step == leg and not p.fired and p.kind == "eof":
+            p.fired = True
+            return TLS.Cert("unknown", (("DNS", "*"),))       # certificate verification failure
+        return TLS.Script.cert_for(self, sock, server_hostname, tls_in_tls)
+
+
+def proxied_dims(part):
+    pts = []
+    for step in PSTEPS:
+        for kind in (PKINDS if step != "none" else ["timeout"]):
+            pts.append((step, kind))
+    return [pts, [1, 2], [True, False], [True, False], [0, 2, 4, 5, 1], [0, 1, 2]]
+
+
+def _proxied_point(idx):
+    (step, kind), maxsize, block, preload, disp, rkind = decode_point(idx, proxied_dims)
+    return N._untraced(_proxied)(P.topo, step, kind, maxsize, block, preload, disp, rkind)
+
+
+def _proxied(topo, step, kind, maxsize, block, preload, disp, rkind):
+    peer = PPeer(topo, step, kind)
+    netw = N.install(peer)
+    E.install_clock()
+    nameok = TLS._name_ok
+    TLS._name_ok = lambda c, h, cn: True
+    TLS.install(_FaultyScript(peer), "ssl", True)
+    try:
+        retries = False if rkind == 0 else (0 if rkind == 1 else Retry(total=1, backoff_factor=0))
+        kw = dict(maxsize=maxsize, block=block)
+        if topo == 0:
+            pool = HTTPSConnectionPool("h", 443, **kw)
+            call = lambda: pool.urlopen("GET", "/x", retries=retries, preload_content=preload)
+            pools = lambda: [pool]
+        else:
+            pm = ProxyManager(("https" if topo == 3 else "http") + "://proxy.example:3128", **kw)
+            url = "http://h/x" if topo == 1 else "https://h/x"
+            call = lambda: pm.urlopen("GET", url, retries=retries, preload_content=preload, redirect=False)
+            pools = lambda: list(pm.pools._container.values())
+        resp = None
+        exc = None
+        try:
+            resp = call()
+        except Exception as e:
+            exc = e
+        except Interrupt as e:
+            exc = e
+        if peer.fired:
+            mark("fault fired")
+        if exc is not None:
+            if isinstance(exc, Interrupt):
+                if exc is not peer.raised:
+                    return _fail("foreign interrupt")
+            elif not isinstance(exc, HTTPError):
+                import traceback
+                return _fail("%s, fault %s at %s: caller saw a raw %r\n%s" % (PTOPOS[topo], kind, step, exc,
+                                                                           "".join(traceback.format_exception(exc))[-900:]))
+        if block and netw.max_open > maxsize:
+            return _fail("block=True but %d sockets open at once" % netw.max_open)
+        if resp is not None:
+            try:
+                dispose(resp, disp, 3)
+            except Exception as e:
+                if not isinstance(e, HTTPError):
+                    return _fail("disposal raised %r" % (e,))
+            except Interrupt as e:
+                if e is not peer.raised:
+                    return _fail("foreign interrupt")
+        f7 = resp is not None and disp == 4 and not _released(resp)
+        resp = None
+        exc = None
+        import gc
+        gc.collect()
+        for pl in pools():
+            why = inv(pl, netw, [], maxsize)
+            if why is not None:
+                # sockets of other pools of the manager are not this pool's: judge sockets globally below
+                if "socket" in why:
+                    continue
+                if f7 and known("F7"):
+                    return True
+                return _fail("%s, fault %s at %s: INV broken: %s" % (PTOPOS[topo], kind, step, why))
+        idle = []
+        for pl in pools():
+            q = list(pl.pool.queue) if pl.pool is not None else []
+            idle.extend(c.sock for c in q if c is not None and c.sock is not None)
+
+        def base_of(s):
+            while isinstance(s, TLS.TlsSock):
+                s = s._inner
+            return s
+        idle_bases = [base_of(s) for s in idle]
+        for s in netw.socks:
+            if not s.closed and not any(s is b for b in idle_bases):
+                if f7 and known("F7"):
+                    return True
+                return _fail("%s, fault %s at %s (preload=%s, disposal %d): socket %d is open but not idle in any pool"
+                             % (PTOPOS[topo], kind, step, preload, disp, s.id))
+        return True
+    finally:
+        TLS._name_ok = nameok
+        TLS.uninstall()
+        N.uninstall()
+        E.uninstall_clock()
+
+
+def c01_proxied(idx: int) -> bool:
+    """
+    pre: 0 <= idx < P.n
+    post: _
+    """
+    return run(_proxied_point, idx)
+
+
+DIMS = {"c01_proxied": proxied_dims}
+
+
 def JOBS(tier):
     jobs = []
     quick = tier == "quick"
@@ -410,11 +652,16 @@ def JOBS(tier):
     ]:
         job(step, f, d, [rk], disps, full=True, rkinds=(2,) if rk in (2, 3) or step else (1,),
             relmodes=(0,) if quick else (0, 1, 2))
+    for topo in range(4):
+        jobs.append({"func": "c01_proxied", "timeout": t, "path_timeout": 60, "samples": 1, "part": {"topo": topo}})
     return jobs
 
 
 EVIDENCE = {
-    "bounds": {"quick": "one attempt (re-entry cut) from a symbolic valid pool state; families: (B) block=True pool of maxsize 1 "
+    "bounds": {"quick": "proxied/TLS pools (c01_proxied): https direct, forwarding http proxy, CONNECT tunnel via http and via https proxy x fault "
+                        "{timeout, reset, EOF/cert failure, garbage, interrupt, SSLError, 403} at {connect, proxy TLS, CONNECT reply, origin TLS, "
+                        "send, status line, mid-body} x maxsize 1-2 x block x preload x 5 disposals x 3 retry settings, every point; "
+                        "direct pools: one attempt (re-entry cut) from a symbolic valid pool state; families: (B) block=True pool of maxsize 1 "
                         "with 0/1 idle connection x preload x release_conn mode x disposal mode, for: no fault x 7 response kinds x "
                         "8 disposals; 6 exception kinds at connect, 7 at send-headers/send-body; 6 exception kinds + 3 data faults "
                         "at 4 receive positions; (A) every pool state with maxsize<=2 (idle, leased, dropped mask, block) for 12 "
@@ -423,7 +670,7 @@ EVIDENCE = {
                            "step, read amounts {0,3,10,11}; (A) maxsize<=3, all release modes; 6x path budget"},
     "outside": ["faults inside queue.LifoQueue", "asynchronous exceptions between two pure-Python statements",
                 "more than one fault per attempt (covered inductively: each attempt restarts from INV)",
-                "TLS / proxied pools (C07, C09 harnesses)"],
+                "more than one fault per attempt on proxied pools"],
     "stubs": ["urllib3.util.connection.create_connection -> MemSock", "urllib3.connection.wait_for_read -> MemSock.readable",
               "time module inside util.timeout/util.retry -> constant clock", "logging disabled",
               "http.client._parse_header_lines runs untraced (concrete bytes)"],
